@@ -1,4 +1,12 @@
 import ProductMD.Proofs.TreeInfoDoc
+import ProductMD.Proofs.C17General
+import ProductMD.Model.TreeInfoText
+import ProductMD.Proofs.TextOKDecide
+import ProductMD.Proofs.C17Legacy
+import ProductMD.Proofs.C17LegacySame
+import ProductMD.Proofs.C17RelPaths
+import ProductMD.Proofs.TreeInfoDecEq
+import ProductMD.Proofs.C05WitnessTI
 /-!
 # C17 — the legacy `[general]` section mirrors the authoritative sections
 
@@ -40,14 +48,53 @@ private theorem lookup_tree (t : TreeInfo) (g : IniSec) : (docList t g).lookup s
   have h1 : ¬ sGeneral = sTree := by decide
   simp [lookup_cons_eq, h1]
 
-/-- **C17.**  For every tree `t` and requested main variant `mv` that `dump` accepts, with `d` the written document:
+/-- **The `src` fallback is for `src` trees only** (obligation on the generated facts).  The branches of `General.serialize`
+that write `packagedir` / `repository`, as the translator reads them from the source on every run: each option is the
+variant's `packages` / `repository` path, and falls back to `source_packages` / `source_repository` exactly when `tree.arch` is
+one of the listed constants — which must be `src` and nothing else; no other statement of the function looks at
+`tree.arch` or at a path.  `generalPath` (in `Mirrors` below) consults these generated constants. -/
+theorem C17_src_fallback_documented :
+    Gen.TREEINFO_GENERAL_PATH_BRANCHES =
+      [("packagedir".toList, "packages".toList, "source_packages".toList, ["src".toList]),
+       ("repository".toList, "repository".toList, "source_repository".toList, ["src".toList])]
+    ∧ Gen.TREEINFO_GENERAL_PATH_BRANCHES_EXACT = true := by decide
+
+/-- …hence `generalPath` is what the property text says: the path, else — in a tree whose arch is exactly `src` — the source path -/
+theorem C17_generalPath_plain (arch : Str) (paths : List (Str × Str)) :
+    generalPath arch paths "packages".toList "source_packages".toList =
+      (match paths.lookup "packages".toList with
+       | some p => some p
+       | none => if arch = "src".toList then paths.lookup "source_packages".toList else none) ∧
+    generalPath arch paths "repository".toList "source_repository".toList =
+      (match paths.lookup "repository".toList with
+       | some p => some p
+       | none => if arch = "src".toList then paths.lookup "source_repository".toList else none) := by
+  have a1 : srcFallbackArches "packages".toList "source_packages".toList = ["src".toList] := by decide
+  have a2 : srcFallbackArches "repository".toList "source_repository".toList = ["src".toList] := by decide
+  have hc : ∀ a : Str, (["src".toList].contains a) = decide (a = "src".toList) := by
+    intro a
+    rw [List.contains_cons, List.contains_nil, Bool.or_false]
+    by_cases h : a = "src".toList
+    · subst h; rfl
+    · rw [decide_eq_false h]; exact beq_eq_false_iff_ne.mpr h
+  unfold generalPath
+  rw [a1, a2, hc]
+  constructor
+  · cases paths.lookup "packages".toList with
+    | some p => rfl
+    | none => simp only [decide_eq_true_eq]
+  · cases paths.lookup "repository".toList with
+    | some p => rfl
+    | none => simp only [decide_eq_true_eq]
+
+/-- what the property says of a document `d` written for tree `t` with requested main variant `mv`:
 family, version, name, arch, platforms of `[general]` equal `[release]` name / version, `"<name> <version>"`, `[tree]`
 arch / platforms; `timestamp` is the decimal form of `int(build_timestamp)` while `[tree] build_timestamp` is
 `str(build_timestamp)`; `variant` is the requested main variant, else the first *container key* in sorted order (`chosenKey`),
 `variants` the sorted container keys; `packagedir` / `repository` are the `packages` / `repository` paths of the variant that
 key designates (`getItem`), in a `src` tree falling back to `source_packages` / `source_repository` (`generalPath`), and are
 absent exactly when that yields nothing. -/
-theorem C17_mirror (t : TreeInfo) (mv : Option Str) (d : Ini) (h : serialize t mv = .ok d) :
+def Mirrors (t : TreeInfo) (mv : Option Str) (d : Ini) : Prop :=
     ∃ n key v, t.tree.ts.toInt = .ok n ∧ chosenKey t.variants mv = .ok key ∧ getItem (key.length + 1) t.variants key = .ok v ∧
       opt d sGeneral kFamily = opt d sRelease kName ∧ opt d sRelease kName = some t.release.name ∧
       opt d sGeneral kVersion = opt d sRelease kVersion ∧ opt d sRelease kVersion = some t.release.version ∧
@@ -58,7 +105,12 @@ theorem C17_mirror (t : TreeInfo) (mv : Option Str) (d : Ini) (h : serialize t m
       opt d sGeneral tVariant = some key ∧
       opt d sGeneral kVariants = some (Str.joinWith ',' (Ini.sortS (t.variants.map Variant.key))) ∧
       opt d sGeneral kPackagedir = generalPath t.tree.arch v.paths "packages".toList "source_packages".toList ∧
-      opt d sGeneral kRepository = generalPath t.tree.arch v.paths "repository".toList "source_repository".toList := by
+      opt d sGeneral kRepository = generalPath t.tree.arch v.paths "repository".toList "source_repository".toList
+
+/-- **C17, on the document.**  For every tree `t` and requested main variant `mv` that `dump` accepts, the written document
+mirrors the authoritative sections in `[general]` (`Mirrors`, spelled out above) — any number of variants, any nesting,
+integer or float timestamp. -/
+theorem C17_mirror (t : TreeInfo) (mv : Option Str) (d : Ini) (h : serialize t mv = .ok d) : Mirrors t mv d := by
   obtain ⟨n, key, v, w⟩ := serialize_spec h
   refine ⟨n, key, v, w.hn, w.hkey, w.hchosen, ?_⟩
   have hG : d.lookup sGeneral = some (generalOpts t n key v) := by rw [w.look, lookup_general]
@@ -96,6 +148,286 @@ theorem C17_mirror (t : TreeInfo) (mv : Option Str) (d : Ini) (h : serialize t m
     simp (decide := true) [hg, hb, releaseOpts, treeOptsFull, treeOpts, lookup_setsKV, lookup_setKV, lookup_cons_eq, hl] <;>
     (generalize generalPath _ _ _ _ = x; cases x <;> rfl)
 
+/-- only options that are not comment-named enter `Mirrors`, so it transfers to any document that agrees on those -/
+theorem Mirrors.congr {t : TreeInfo} {mv : Option Str} {d d' : Ini} (he : ∀ s k, nc k = true → opt d' s k = opt d s k)
+    (h : Mirrors t mv d) : Mirrors t mv d' := by
+  obtain ⟨n, key, v, h1, h2, h3, m⟩ := h
+  refine ⟨n, key, v, h1, h2, h3, ?_⟩
+  rw [he sGeneral kFamily (by decide), he sRelease kName (by decide), he sGeneral kVersion (by decide), he sRelease kVersion (by decide),
+    he sGeneral kName (by decide), he sGeneral kArch (by decide), he sTree kArch (by decide), he sGeneral kPlatforms (by decide),
+    he sTree kPlatforms (by decide), he sGeneral kTimestamp (by decide), he sTree kBuildTs (by decide), he sGeneral tVariant (by decide),
+    he sGeneral kVariants (by decide), he sGeneral kPackagedir (by decide), he sGeneral kRepository (by decide)]
+  exact m
+
+/-- **C17, on the bytes.**  The text `dumps()` returns, read by the INI reader model (`IniParse.parse`, CPython's
+`configparser` as the library configures it, with blank predicate `sp`), is a document with the same mirror: the reader
+inverts the writer (`Proofs/IniRoundTrip.lean`) and drops exactly the comment-named `; WARNING.n` lines of `[general]`
+(`Proofs/IniTextTie.lean`).  `TextOK` (as in `C04_tree_text`): the written document is representable in the file syntax. -/
+theorem C17_text (sp : Char → Bool) (hsp : IniParse.SpOK sp) (hh : sp '#' = false) (hs : sp ';' = false)
+    (t : TreeInfo) (mv : Option Str) (text : Str) (h : dumps t mv = .ok text)
+    (htext : ∀ d, serialize t mv = .ok d → TextOK sp d) :
+    ∃ d', IniParse.parse sp text = .ok d' ∧ Mirrors t mv d' := by
+  unfold dumps at h
+  cases hser : serialize t mv with
+  | error e => rw [hser] at h; cases h
+  | ok d =>
+    rw [hser] at h
+    simp only [Except.map] at h
+    injection h with h
+    subst h
+    obtain ⟨n0, key, chosen, w⟩ := serialize_spec hser
+    obtain ⟨hnl, hrep⟩ := htext d hser
+    refine ⟨readDoc d, ?_, (C17_mirror t mv d hser).congr (fun s k hk => opt_readDoc d s k hk)⟩
+    rw [render_eq_canon d w.view.noDefault]
+    exact IniParse.parse_render_dropComments hsp hh hs _ hnl hrep
+
+/-- `C17_text` for CPython's `str.isspace`, with the decidable representability criterion the driver evaluates -/
+theorem C17_text_py (t : TreeInfo) (mv : Option Str) (text : Str) (h : dumps t mv = .ok text)
+    (hrep : ∀ d, serialize t mv = .ok d → IniText.Representable d = true) :
+    ∃ d', IniParse.parse Str.isPySpace text = .ok d' ∧ Mirrors t mv d' :=
+  C17_text Str.isPySpace spOK_py py_hash py_semi t mv text h (fun d hd => textOK_of_representable d (hrep d hd))
+
+/-- **Platforms always include the tree architecture.**  `[tree] platforms`, hence `[general] platforms`, is the comma list
+of a strictly increasing list `L` (sorted, no duplicates) whose members are exactly the platforms of the tree and its
+architecture. -/
+theorem C17_platforms_include_arch (t : TreeInfo) (mv : Option Str) (d : Ini) (h : serialize t mv = .ok d) :
+    ∃ L : List Str, opt d sTree kPlatforms = some (Str.joinWith ',' L) ∧ opt d sGeneral kPlatforms = some (Str.joinWith ',' L) ∧
+      t.tree.arch ∈ L ∧ L.Pairwise (fun a b => a < b) ∧ ∀ p, p ∈ L ↔ (p ∈ t.tree.platforms ∨ p = t.tree.arch) := by
+  obtain ⟨n, key, v, _, _, _, _, _, _, _, _, _, _, hgp, htp, _⟩ := C17_mirror t mv d h
+  refine ⟨Str.sortDedup (t.tree.platforms ++ [t.tree.arch]), htp, by rw [hgp]; exact htp, ?_, sortDedup_sorted _, ?_⟩
+  · rw [mem_sortDedup]; simp
+  · intro p; rw [mem_sortDedup]; simp
+
+/-- **A requested main variant must designate a variant.**  If `dump(main_variant=mv)` succeeds, `mv` is written as
+`[general] variant` and designates a variant of the tree the way `VariantBase.__getitem__` resolves names: a top-level
+container key; or, only for a name containing `-` that is no key, the UID of a top-level variant, or a dashed path
+`<top-level key>-<rest>` into the children.  A name without a dash therefore IS a top-level container key. -/
+theorem C17_main_variant (t : TreeInfo) (mv : Str) (d : Ini) (h : serialize t (some mv) = .ok d) :
+    opt d sGeneral tVariant = some mv ∧ ∃ v, Designates t.variants mv v ∧
+      (mv.contains '-' = false → v ∈ t.variants ∧ v.key = mv) := by
+  obtain ⟨n, key, v, _, hkey, hget, _, _, _, _, _, _, _, _, _, _, _, hvar, _⟩ := C17_mirror t (some mv) d h
+  have e : key = mv := by simp only [chosenKey] at hkey; injection hkey with e; exact e.symm
+  subst e
+  exact ⟨hvar, v, getItem_designates _ _ _ _ hget, fun hd => getItem_dashless _ _ _ _ hd hget⟩
+
+/-- …and a name that designates nothing is refused: the dump cannot succeed, and the lookup itself fails with `KeyError`
+(never by running out of fuel) -/
+theorem C17_main_variant_refused (t : TreeInfo) (mv : Str) (e : Err)
+    (hno : getItem (mv.length + 1) t.variants mv = .error e) : e = .keyError ∧ ∀ d, serialize t (some mv) ≠ .ok d := by
+  refine ⟨getItem_error _ _ _ _ (by omega) hno, ?_⟩
+  intro d h
+  obtain ⟨n, key, v, _, hkey, hget, _⟩ := C17_mirror t (some mv) d h
+  have e' : key = mv := by simp only [chosenKey] at hkey; injection hkey with e'; exact e'.symm
+  subst e'
+  rw [hno] at hget; cases hget
+
+/-- **The default main variant is the least container key** in Python's string order (code points): it is the key of a
+top-level variant and every other key is `≥` it; there is none exactly when the tree has no variants (`IndexError`). -/
+theorem C17_default_main_variant (tops : List Variant) :
+    (∀ k, chosenKey tops none = .ok k → (∃ v ∈ tops, v.key = k) ∧ ∀ v ∈ tops, k ≤ v.key) ∧
+    (tops = [] ↔ chosenKey tops none = .error .indexError) := by
+  constructor
+  · intro k hk
+    simp only [chosenKey] at hk
+    cases hs : sortS (tops.map Variant.key) with
+    | nil => rw [hs] at hk; cases hk
+    | cons k0 r =>
+      rw [hs] at hk
+      injection hk with e; subst e
+      obtain ⟨hm, hmin⟩ := sortS_head_min _ _ _ hs
+      obtain ⟨v, hv, hvk⟩ := List.mem_map.mp hm
+      exact ⟨⟨v, hv, hvk⟩, fun w hw => hmin _ (List.mem_map.mpr ⟨w, hw, rfl⟩)⟩
+  · constructor
+    · intro e; subst e; rfl
+    · intro h
+      simp only [chosenKey] at h
+      cases hs : sortS (tops.map Variant.key) with
+      | nil =>
+        have := (sortBy_eq_nil id _).mp hs
+        simpa using this
+      | cons k0 r => rw [hs] at h; cases h
+
+/-! ### the last sentence: a pre-productmd reader given only the compatibility sections
+
+Stand-in for "a pre-productmd reader": the library's own reader for files without `[header]` (`Legacy.deserialize`, which
+then takes header version 0.0; `Model/TreeInfoLegacy.lean`, tied to `treeinfo.py` by the C05 correspondence and by the
+`legacy` observation of `harness/props/c17.py`).  It is handed the written document restricted to `compatDoc`: exactly
+`[general]`, `[stage2]`, `[checksums]` and every `[images-*]` — the sections a pre-productmd file has.  Of these the 0.0
+reader consults: `[general] family, version, arch, timestamp, variant, repository, packagedir` (and looks in vain for
+`addons, packages, packagedirs, identity, discnum, totaldiscs`), the `images-*` section NAMES for the platform list, all of
+`[stage2]`, `[checksums]`, `[images-*]`.  It does NOT read `[general] name, platforms, variants`.
+
+What it yields is `legacyTree` (`Proofs/C17Legacy.lean`): release name / version through the family table and the
+version heuristic of `Release.deserialize_0_0` (`legacyRelease`), the tree architecture, the integer timestamp, the
+platform list "architecture + one per images section" (`legacyPlatforms`), ONE variant whose id = uid = name is
+`[general] variant` with the paths `VariantPaths.deserialize_0_0` computes from `[general] repository / packagedir`
+(`legacyPathVals`), checksums, images, stage2 as in C04, no media.  `C17_legacy_same` below says when that is "the same
+tree". -/
+
+/-- the side conditions of `C17_legacy_reader_partial` on the tree and the variant name in `[general]` — all decidable -/
+structure LegacyOK (t : TreeInfo) (key : Str) : Prop where
+  /-- the name is not empty (else the reader guesses a variant from the release short name) -/
+  key_ne : key ≠ []
+  /-- …and has no dash: a dashed name (a child designated by its path, or a dashed top-level UID) is split at the last dash
+  into id ≠ uid, which `Variant.validate` refuses for a variant without parent (`C17_legacy_dashed_refused`) -/
+  key_dashless : '-' ∉ key
+  /-- the architecture is not itself the name of a kept section (the reader would read `platforms` from that section) -/
+  arch : compatSec t.tree.arch = false
+  /-- the RHEL 5 addon table does not apply (it invents children `Cluster`, `VT`, … for `Server` / `Client`) -/
+  rhel5 : Legacy.rhel5Addons (legacyCtx t) key [] = []
+  /-- `instimage` is not an absolute path: the 0.0 `_fix_path` cuts those (`C17_legacy_absolute_instimage_cut`).  Checksum
+  paths, image paths and `mainimage` need no such condition: the writer's own `validate()` refuses absolute ones
+  (`relPaths_of_written`, from the generated validators). -/
+  instimage : ∀ p, t.instimage = some p → RelPath p
+
+/-- on the written document itself -/
+theorem C17_legacy_reader_doc_partial (fo : FloatOracle) (t : TreeInfo) (mv : Option Str) (d : Ini) (n n' : Int) (key : Str)
+    (chosen : Variant) (h : serialize t mv = .ok d)
+    (hn : t.tree.ts.toInt = .ok n) (hkey : chosenKey t.variants mv = .ok key)
+    (hch : getItem (key.length + 1) t.variants key = .ok chosen)
+    (hfl : fo.intOfFloatStr (Str.intStr n) = .ok n') (hok : LegacyOK t key)
+    (hcs : ChecksumsOK t.checksums) (himg : ImagesOK t.tree.arch t.images)
+    (hvr : validateClass "treeinfo.Release" (releaseObj (legacyRelease t) false) = .ok ())
+    (hv : ReadValid (legacyTree t n' key chosen)) :
+    Legacy.deserialize fo (compatDoc d) = .ok (legacyTree t n' key chosen) := by
+  obtain ⟨n0, key0, chosen0, w⟩ := serialize_spec h
+  have e1 : n0 = n := by have := w.hn; rw [hn] at this; injection this with this; exact this.symm
+  have e2 : key0 = key := by have := w.hkey; rw [hkey] at this; injection this with this; exact this.symm
+  subst e1 e2
+  have e3 : chosen0 = chosen := by have := w.hchosen; rw [hch] at this; injection this with this; exact this.symm
+  subst e3
+  exact legacy_of_view fo t mv d d n0 n' key0 chosen0 w w.view hfl hok.key_ne hok.key_dashless hok.arch hok.rhel5 hcs himg
+    (relPaths_of_written (serialize_valid h) hok.instimage) (fun _ => trivial) (fun _ _ => trivial) hvr hv
+
+/-- **C17, the pre-productmd reader (partial).**  The bytes `dumps()` returns, read by the INI reader model, restricted to
+the compatibility sections and handed to the 0.0 reader, yield `legacyTree`.  Hypotheses: the text-level ones of
+`C04_tree_text` (`TextOK`, no comment-named checksum path / image name, `ChecksumsOK`, `ImagesOK`); `n` is
+`int(build_timestamp)`, `key` the variant `[general]` names and `chosen` the variant it designates (all three are
+determined by `t` and `mv`); `n'` is what `int(float(str(n)))` gives (`n' = n` up to 2^53, F17); `LegacyOK`; the tree
+the reader is to return passes the `validate()` calls the reader makes (`hvr`, `hv` — this is where a timestamp `0` is
+refused, `C17_legacy_zero_timestamp_refused`). -/
+theorem C17_legacy_reader_partial (sp : Char → Bool) (hsp : IniParse.SpOK sp) (hh : sp '#' = false) (hs : sp ';' = false)
+    (fo : FloatOracle) (t : TreeInfo) (mv : Option Str) (text : Str) (n n' : Int) (key : Str) (chosen : Variant)
+    (h : dumps t mv = .ok text) (htext : ∀ d, serialize t mv = .ok d → TextOK sp d)
+    (hn : t.tree.ts.toInt = .ok n) (hkey : chosenKey t.variants mv = .ok key)
+    (hch : getItem (key.length + 1) t.variants key = .ok chosen)
+    (hfl : fo.intOfFloatStr (Str.intStr n) = .ok n') (hok : LegacyOK t key)
+    (hck : ∀ c ∈ t.checksums, nc c.1 = true) (himn : ∀ p ∈ t.images, ∀ kv ∈ p.2, nc kv.1 = true)
+    (hcs : ChecksumsOK t.checksums) (himg : ImagesOK t.tree.arch t.images)
+    (hvr : validateClass "treeinfo.Release" (releaseObj (legacyRelease t) false) = .ok ())
+    (hv : ReadValid (legacyTree t n' key chosen)) :
+    ∃ d', IniParse.parse sp text = .ok d' ∧ Legacy.deserialize fo (compatDoc d') = .ok (legacyTree t n' key chosen) := by
+  unfold dumps at h
+  cases hser : serialize t mv with
+  | error e => rw [hser] at h; cases h
+  | ok d =>
+    rw [hser] at h
+    simp only [Except.map] at h
+    injection h with h
+    subst h
+    obtain ⟨n0, key0, chosen0, w⟩ := serialize_spec hser
+    have e1 : n0 = n := by have := w.hn; rw [hn] at this; injection this with this; exact this.symm
+    have e2 : key0 = key := by have := w.hkey; rw [hkey] at this; injection this with this; exact this.symm
+    subst e1 e2
+    have e3 : chosen0 = chosen := by have := w.hchosen; rw [hch] at this; injection this with this; exact this.symm
+    subst e3
+    obtain ⟨hnl, hrep⟩ := htext d hser
+    refine ⟨readDoc d, ?_, ?_⟩
+    · rw [render_eq_canon d w.view.noDefault]
+      exact IniParse.parse_render_dropComments hsp hh hs _ hnl hrep
+    · refine legacy_of_view fo t mv d (readDoc d) n0 n' key0 chosen0 w (view_readDoc w.view) hfl hok.key_ne hok.key_dashless
+        hok.arch hok.rhel5 hcs himg (relPaths_of_written (serialize_valid hser) hok.instimage) ?_ ?_ hvr hv
+      · intro _ kv hkv
+        rw [checksumOpts_eq _ hcs.1] at hkv
+        obtain ⟨c, hc, rfl⟩ := List.mem_map.mp hkv
+        exact hck c hc
+      · intro p hp kv hkv
+        rw [setsKV_nil_nodup _ (himg.1 p hp)] at hkv
+        exact himn p hp kv hkv
+
+/-- **When that is "the same tree".**  Of `legacyTree`: architecture and integer timestamp are the tree's; the platforms
+are the architecture and the platforms that have images (a platform without images is not seen: `[general] platforms` is
+not read); there is exactly ONE variant and its id = uid = name is the `[general] variant`; the release name is the
+tree's whenever the family table leaves it alone, the version whenever it has no `-` / `_`; checksums, images, stage2 are
+what the current reader returns (C04); there is no media. -/
+theorem C17_legacy_same (t : TreeInfo) (n : Int) (key : Str) (chosen : Variant) :
+    (legacyTree t n key chosen).tree.arch = t.tree.arch ∧ (legacyTree t n key chosen).tree.ts = .int n ∧
+    (∀ p, p ∈ (legacyTree t n key chosen).tree.platforms ↔ p = t.tree.arch ∨ p ∈ t.images.map (·.1)) ∧
+    (∃ paths, (legacyTree t n key chosen).variants = [.mk key key key key tVariant paths []]) ∧
+    ((Legacy.releaseShort00 t.release.name).1 = t.release.name → (legacyTree t n key chosen).release.name = t.release.name) ∧
+    ((∀ c ∈ t.release.version, c ≠ '-' ∧ c ≠ '_') → (legacyTree t n key chosen).release.version = t.release.version) ∧
+    (legacyTree t n key chosen).checksums = (norm t).checksums ∧ (legacyTree t n key chosen).images = (norm t).images ∧
+    (legacyTree t n key chosen).mainimage = (norm t).mainimage ∧ (legacyTree t n key chosen).instimage = (norm t).instimage ∧
+    (legacyTree t n key chosen).discnum = none ∧ (legacyTree t n key chosen).totaldiscs = none :=
+  ⟨rfl, rfl, mem_legacyPlatforms t, ⟨_, rfl⟩, fun h => h, fun h => legacyVersion_plain _ h, rfl, rfl, rfl, rfl, rfl, rfl⟩
+
+/-- **…and its paths.**  Outside the RHEL / Fedora special cases (`short` from the family table is neither), when
+`[general]` carries clean `repository = r` and `packagedir = p` (not empty, no trailing `/`, not ending in `/repodata`):
+the one variant has `packages = p`, `repository = r` — in a `src` tree `source_packages = p`, `source_repository = r` —
+and no other path.  By `C17_mirror`, `p` / `r` are the `packages` / `repository` paths of the designated variant, in a
+`src` tree falling back to its `source_*` paths. -/
+theorem C17_legacy_paths (t : TreeInfo) (n : Int) (key r p : Str) (chosen : Variant)
+    (h1 : (Legacy.releaseShort00 t.release.name).2 ≠ Legacy.sRHEL) (h2 : (Legacy.releaseShort00 t.release.name).2 ≠ Legacy.sFedora)
+    (hr : generalPath t.tree.arch chosen.paths "repository".toList "source_repository".toList = some r)
+    (hp : generalPath t.tree.arch chosen.paths "packages".toList "source_packages".toList = some p)
+    (cr : CleanPath r) (cp : CleanPath p) :
+    (legacyTree t n key chosen).variants = [.mk key key key key tVariant
+      (if t.tree.arch == Legacy.sSrc then [(Legacy.kSourcePackages, p), (Legacy.kSourceRepository, r)]
+       else [(Legacy.kPackages, p), (kRepository, r)]) []] := by
+  have := legacyPaths_plain (legacyCtx t) key r p h1 h2 cr cp
+  simp only [legacyTree, legacyVariant, hr, hp, this]
+  rfl
+
+/-! ### the side conditions are necessary: decided witnesses (both replayed on the real code, `harness/props/c17.py`) -/
+
+/-- a float timestamp below 1: `int()` makes it `0`, `[general] timestamp = 0`, and the 0.0 reader refuses the tree
+("build_timestamp must not be blank") although every other side condition holds -/
+def C17_wZero : TreeInfo :=
+  { headerVersion := "0.0".toList, release := ⟨"Foo".toList, "F".toList, "1.0".toList⟩, isLayered := false, baseProduct := none,
+    tree := ⟨"x86_64".toList, .float "0.5".toList (.ok 0), []⟩,
+    variants := [.mk "Server".toList "Server".toList "Server".toList "Server".toList "variant".toList
+                    [("packages".toList, "Packages".toList), ("repository".toList, "repo".toList)] []],
+    checksums := [], images := [], mainimage := none, instimage := none, discnum := none, totaldiscs := none }
+
+theorem C17_legacy_zero_timestamp_refused :
+    (match serialize C17_wZero none with
+     | .ok d => (opt d sGeneral kTimestamp == some "0".toList) &&
+                (match Legacy.deserialize intOracle (compatDoc d) with | .error .valueError => true | _ => false)
+     | .error _ => false) = true := by decide +kernel
+
+example : LegacyOK C17_wZero "Server".toList :=
+  ⟨by decide, by decide, by decide +kernel, by decide +kernel, by simp [C17_wZero]⟩
+
+/-- a main variant designated by a dashed path (a child): `dump` accepts it, `[general] variant = Server-HA`, and the 0.0
+reader refuses the tree (id `HA` ≠ uid `Server-HA` in a variant without parent) -/
+def C17_exTree' : TreeInfo :=
+  { headerVersion := "0.0".toList, release := ⟨"Foo".toList, "F".toList, "21".toList⟩, isLayered := false, baseProduct := none,
+    tree := ⟨"x86_64".toList, .int 1417653911, ["xen".toList]⟩,
+    variants := [.mk "Server".toList "Server".toList "Server".toList "Server".toList "variant".toList
+                    [("packages".toList, "Packages".toList), ("repository".toList, "repo".toList)]
+                    [.mk "HA".toList "HA".toList "Server-HA".toList "HA".toList "addon".toList [] []],
+                 .mk "Client".toList "Client".toList "Client".toList "Client".toList "variant".toList
+                    [("packages".toList, "Client/Packages".toList), ("repository".toList, "Client".toList)] []],
+    checksums := [("images/boot.iso".toList, "sha256".toList, "00".toList)],
+    images := [("xen".toList, [("kernel".toList, "images/xen/vmlinuz".toList)])],
+    mainimage := some "images/install.img".toList, instimage := none, discnum := some 1, totaldiscs := some 2 }
+
+theorem C17_legacy_dashed_refused :
+    (match serialize C17_exTree' (some "Server-HA".toList) with
+     | .ok d => (opt d sGeneral tVariant == some "Server-HA".toList) &&
+                (match Legacy.deserialize intOracle (compatDoc d) with | .error .valueError => true | _ => false)
+     | .error _ => false) = true := by decide +kernel
+
+/-- an absolute `instimage` (the one path the writer does not validate) is written as it stands and the 0.0 reader cuts it
+after the first `/os/`: it sees `images/install.img` where the tree says `/mnt/os/images/install.img` -/
+theorem C17_legacy_absolute_instimage_cut :
+    (match serialize { C17_exTree' with instimage := some "/mnt/os/images/install.img".toList } none with
+     | .ok d => (opt d sStage2 kInstimage == some "/mnt/os/images/install.img".toList) &&
+                (match Legacy.deserialize intOracle (compatDoc d) with
+                 | .ok lt => lt.instimage == some "images/install.img".toList
+                 | _ => false)
+     | .error _ => false) = true := by decide +kernel
+
 /-! ### non-vacuity: a `src` tree with a nested addon, only source paths, media -/
 def C17_exTree : TreeInfo :=
   { headerVersion := "0.0".toList, release := ⟨"Fedora".toList, "F".toList, "21".toList⟩, isLayered := false, baseProduct := none,
@@ -113,5 +445,36 @@ example : (serialize C17_exTree none).toOption.map (fun d => (opt d sGeneral tVa
     = some (some "Client".toList, some "1417653911".toList) := by decide +kernel
 example : (serialize C17_exTree (some "Server".toList)).toOption.map (fun d => opt d sGeneral kPackagedir)
     = some (some "Packages".toList) := by decide +kernel
+
+/-- the text-level hypotheses hold of the example (representable document), and the conclusion evaluated on the bytes -/
+example : (serialize C17_exTree none).toOption.map IniText.Representable = some true := by decide +kernel
+example : ((dumps C17_exTree none).toOption.bind fun text => (IniParse.parse Str.isPySpace text).toOption.map fun d' =>
+    (opt d' sGeneral tVariant, opt d' sGeneral kPlatforms, opt d' sTree kPlatforms))
+    = some (some "Client".toList, some "src,xen".toList, some "src,xen".toList) := by decide +kernel
+/-- a name that designates nothing is refused with `KeyError`; a dashed path designates a child -/
+example : (match getItem 7 C17_exTree.variants "Nobody".toList with | .error .keyError => true | _ => false) = true := by decide +kernel
+example : (serialize C17_exTree (some "Nobody".toList)).toBool = false ∧ (serialize C17_exTree (some "Server-HA".toList)).toBool = true := by
+  decide +kernel
+
+/-- non-vacuity of `C17_legacy_reader_partial`: on `C17_exTree'` (two variants, a child, extra platform with images, checksums,
+stage2, media) with the default main variant the reader succeeds and returns `legacyTree`; the side conditions hold; the
+paths are the designated variant's -/
+example : (serialize C17_exTree' none).toOption.map (fun d => Legacy.deserialize intOracle (compatDoc d))
+    = some (.ok (legacyTree C17_exTree' 1417653911 "Client".toList
+        (.mk "Client".toList "Client".toList "Client".toList "Client".toList "variant".toList
+          [("packages".toList, "Client/Packages".toList), ("repository".toList, "Client".toList)] []))) := by decide +kernel
+/-- …and through the bytes (the conclusion of `C17_legacy_reader_partial` itself) -/
+example : ((dumps C17_exTree' none).toOption.bind fun text => (IniParse.parse Str.isPySpace text).toOption.map fun d' =>
+      Legacy.deserialize intOracle (compatDoc d'))
+    = some (.ok (legacyTree C17_exTree' 1417653911 "Client".toList
+        (.mk "Client".toList "Client".toList "Client".toList "Client".toList "variant".toList
+          [("packages".toList, "Client/Packages".toList), ("repository".toList, "Client".toList)] []))) := by decide +kernel
+example : LegacyOK C17_exTree' "Client".toList :=
+  ⟨by decide, by decide, by decide +kernel, by decide +kernel, by simp [C17_exTree']⟩
+example : (legacyTree C17_exTree' 1417653911 "Client".toList
+        (.mk "Client".toList "Client".toList "Client".toList "Client".toList "variant".toList
+          [("packages".toList, "Client/Packages".toList), ("repository".toList, "Client".toList)] [])).variants
+    = [.mk "Client".toList "Client".toList "Client".toList "Client".toList "variant".toList
+          [("packages".toList, "Client/Packages".toList), ("repository".toList, "Client".toList)] []] := by decide +kernel
 
 end PM
